@@ -366,6 +366,8 @@ def make_classes(ctx: Ctx) -> Dict[str, type]:
                     if typ == "np":
                         import numpy as _np
                         price = _np.float64(price)
+                    elif typ == "ip" and abs(price) < 1e15:
+                        price = int(round(price))  # a price written as a whole number (a Python int)
                     o = Order(agent_id=self.agent_id, market_id=market.market_id, is_buy=is_buy,
                               kind=LIMIT_ORDER, volume=vol_, price=price, ttl=ttl)
                 else:
